@@ -14,10 +14,48 @@
              Branches are joined, loops are iterated to a post-fixpoint with fuel.
   * `safe`   no write through a possibly-input alias anywhere, and the returned variable is not one.
 
+  Wrapper level.  A raster object has three components -- its cells (`data`), its coordinates
+  (`coords`: the memory of the non-index coordinate variables) and its attributes (`attrs`: the attrs
+  dict) -- each held by its own variable ("slot").  Every parameter of a public function contributes
+  three input buffers.  `Op.build` is one xarray constructor / copy primitive (`DataArray(…)`,
+  `copy(deep=…)`, `astype`, arithmetic, …): it fills the three slots of its result, each according to a
+  `Mode` (fresh / deep copy / shallow = the source's own memory / decided at run time) taken from the
+  primitive table (`WPrim`, generated from the table of harness/facts_bufprog.py, probed on the real
+  xarray on every run).  `safeAll` demands that none of the three slots of the returned object can
+  point into an input buffer.
+
   The soundness theorems (`Props/C10.lean`) are about all programs; the generated programs are then
   accepted by evaluating `safe` in the kernel.  No Mathlib.
 -/
 namespace XrsVerif.BP
+
+/-- how a wrapper primitive obtains one component of its result -/
+inductive Mode where
+  | fresh      -- built anew; whatever source there is, is only read (a new dict, a computed array)
+  | deep       -- a copy of the source component in memory of its own
+  | shallow    -- the source component itself: shared memory
+  | maybe      -- shared or copied, decided at run time (dtype / layout)
+  deriving Repr, DecidableEq, Inhabited
+
+/-- one component of the object a wrapper primitive builds: the slot variable that receives it, how it
+    is obtained, and the variable that holds the source (`none`: nothing given) -/
+structure Part where
+  dst : Nat
+  mode : Mode
+  src : Option Nat
+  deriving Repr, DecidableEq, Inhabited
+
+/-- may the component end up in the source's memory / in memory of its own -/
+def Part.mayShare (p : Part) : Bool :=
+  match p.mode, p.src with
+  | .shallow, some _ => true
+  | .maybe, some _ => true
+  | _, _ => false
+
+def Part.mayCopy (p : Part) : Bool :=
+  match p.mode, p.src with
+  | .shallow, some _ => false
+  | _, _ => true
 
 /-- primitive buffer effects; `d` destination variable, `s` source variable -/
 inductive Op where
@@ -27,7 +65,29 @@ inductive Op where
   | maybeView (d s : Nat)    -- ravel / reshape / astype(copy=False) / ascontiguousarray : layout decides
   | write (d : Nat)          -- d[...] = …, in-place operator, .sort(), .fill(), out=d
   | unknown                  -- construct outside the translator's table: anything may happen
+  | build (data coords attrs : Part)   -- xarray constructor / copy primitive: the three components of its result
   deriving Repr, DecidableEq, Inhabited
+
+/-- a row of the wrapper-level primitive table -/
+structure WPrim where
+  name : String
+  data : Mode
+  coords : Mode
+  attrs : Mode
+  deriving Repr, DecidableEq, Inhabited
+
+/-- the three slot variables of an object -/
+structure Obj where
+  data : Nat
+  coords : Nat
+  attrs : Nat
+  deriving Repr, DecidableEq, Inhabited
+
+def Obj.slots (o : Obj) : List Nat := [o.data, o.coords, o.attrs]
+
+/-- the primitive `p` building the object `d` from the given sources -/
+def WPrim.build (p : WPrim) (d : Obj) (sd sc sa : Option Nat) : Op :=
+  .build ⟨d.data, p.data, sd⟩ ⟨d.coords, p.coords, sc⟩ ⟨d.attrs, p.attrs, sa⟩
 
 /-- structured programs in continuation form (`k` = what runs afterwards) -/
 inductive Prog where
@@ -74,7 +134,16 @@ def St.mark (s : St) : Option Nat → St
   | some b => { s with dirty := fun x => if x = b then true else s.dirty x }
   | none => s
 
-/-- one primitive step.  `maybeView` has two outcomes (the layout decides); `unknown` is havoc. -/
+/-- a resolution `sh` (shared / own memory) of one part is admissible -/
+def Part.admits (p : Part) (sh : Bool) : Prop := if sh then p.mayShare = true else p.mayCopy = true
+
+/-- fill the slot of one part: with the buffer its source pointed to in `pre` (the state the primitive
+    was called in: all three sources are read before any slot is filled), or with a fresh buffer -/
+def St.bindPart (s pre : St) (p : Part) (sh : Bool) : St :=
+  if sh then s.bindTo p.dst (p.src.bind pre.env) else s.bindFresh p.dst
+
+/-- one primitive step.  `maybeView` has two outcomes (the layout decides); `unknown` is havoc;
+    `build` fills three slots, each shared with its source or fresh as its mode admits. -/
 inductive OpStep : Op → St → St → Prop where
   | alloc (d : Nat) (s : St) : OpStep (.alloc d) s (s.bindFresh d)
   | copyOf (d src : Nat) (s : St) : OpStep (.copyOf d src) s (s.bindFresh d)
@@ -83,6 +152,8 @@ inductive OpStep : Op → St → St → Prop where
   | maybeIsCopy (d src : Nat) (s : St) : OpStep (.maybeView d src) s (s.bindFresh d)
   | write (d : Nat) (s : St) : OpStep (.write d) s (s.mark (s.env d))
   | unknown (s s' : St) : OpStep .unknown s s'
+  | build (a b c : Part) (x y z : Bool) (s : St) : a.admits x → b.admits y → c.admits z →
+      OpStep (.build a b c) s (((s.bindPart s a x).bindPart s b y).bindPart s c z)
 
 /-- every run of a program: any branch, any iteration count, any layout resolution -/
 inductive Exec : Prog → St → St → Prop where
@@ -108,6 +179,13 @@ def Taint.clear (l : Taint) (d : Nat) : Taint := l.filter (fun x => x != d)
 def Taint.join (a b : Taint) : Taint := a ++ b.filter (fun x => !a.contains x)
 def Taint.sub (a b : Taint) : Bool := a.all (fun x => b.contains x)
 
+/-- may the part point into an input buffer, judged in the taint `l0` the primitive was called in -/
+def Part.tainted (l0 : Taint) (p : Part) : Bool :=
+  p.mayShare && (match p.src with | some x => l0.has x | none => false)
+
+def Taint.bindPart (l l0 : Taint) (p : Part) : Taint :=
+  if p.tainted l0 then p.dst :: l.clear p.dst else l.clear p.dst
+
 def astep (l : Taint) : Op → Option Taint
   | .alloc d => some (l.clear d)
   | .copyOf d _ => some (l.clear d)
@@ -115,6 +193,7 @@ def astep (l : Taint) : Op → Option Taint
   | .maybeView d s => some (if l.has s then d :: l.clear d else l.clear d)   -- conservative: a view
   | .write d => if l.has d then none else some l
   | .unknown => none
+  | .build a b c => some (((l.bindPart l a).bindPart l b).bindPart l c)
 
 /-- iterate the abstract body until the taint set no longer grows (post-fixpoint), with fuel -/
 def aloop (f : Taint → Option Taint) : Nat → Taint → Option Taint
@@ -153,6 +232,12 @@ def safe (p : Prog) (a0 : Taint) (ret : Nat) : Bool :=
   | some l => !l.has ret
   | none => false
 
+/-- … and none of the returned object's slots (data, coords, attrs) can point into an input buffer -/
+def safeAll (p : Prog) (a0 : Taint) (rets : List Nat) : Bool :=
+  match acheck p a0 with
+  | some l => rets.all (fun r => !l.has r)
+  | none => false
+
 /-! ### diagnostics for the driver (not used by the theorems) -/
 
 /-- the same program with the writes erased: shows where the returned variable may point -/
@@ -184,9 +269,9 @@ def mayReturn (p : Prog) (k : Nat) (ret : Nat) : List Nat :=
 /-- a generated entry: one public function on the NumPy backend -/
 structure Entry where
   name : String            -- "module.function"
-  k : Nat                  -- number of inputs (parameters that can hold an array / container)
-  params : List String     -- their names, input `i` = variable `i`
-  ret : Nat                -- the returned variable
+  k : Nat                  -- number of input buffers: three per parameter that can hold an array / a raster
+  params : List String     -- their names, input `i` = variable `i`: "p", … then "p.coords", … then "p.attrs", …
+  ret : Obj                -- the slots of the returned object
   prog : Prog
   deriving Inhabited
 
